@@ -7,7 +7,7 @@
    [pdp_admissible], [kopt_builder] = the environments' move masks / sequential move sampler. *)
 From Coq Require Import ZArith List Bool Arith Permutation.
 From RL4CO Require Import Env.Improve Env.ImproveTwoOpt Env.ImprovePDP Env.ImproveKopt Env.ImproveKoptFinite
-  Env.ImproveRun Env.ImproveBatch1.
+  Env.ImproveRun Env.ImproveBatch1 Env.ImproveKoptUnbounded Env.ImproveKoptBuilder Env.ImproveKoptRun.
 Import ListNotations.
 
 (* 1. best-so-far bookkeeping of _step: UNBOUNDED -- any tour type, any operator, any cost function, any move
@@ -92,9 +92,9 @@ Theorem C09_pdp_rr_valid :
 Proof. exact pdp_rr_valid. Qed.
 Print Assumptions C09_pdp_rr_valid.
 
-(* 8. k-opt, k_max in {3, 4}: PARTIAL -- BOUNDED, exhaustive: k = 3 with 3 <= n <= 8, k = 4 with 3 <= n <= 7,
+(* 8. k-opt, k_max in {3, 4}: BOUNDED, exhaustive (vm_compute): k = 3 with 3 <= n <= 8, k = 4 with 3 <= n <= 7,
    every tour, every sequence of draws the sequential sampler (_random_action / NeuOptPolicy) can make.
-   The unbounded statement is ImproveKopt.k_opt_valid_statement and is not proved. *)
+   SUPERSEDED by the unbounded theorem 15. (every k, every n >= 3); kept as an independent evaluation of the same model. *)
 Theorem C09_k_opt_valid_partial :
   forall (k : nat) (rec cs a : list nat),
     (k = 3 /\ 3 <= length rec <= 8) \/ (k = 4 /\ 3 <= length rec <= 7) ->
@@ -146,8 +146,8 @@ Theorem C09_pdp_run_valid :
 Proof. exact pdp_run_valid. Qed.
 Print Assumptions C09_pdp_run_valid.
 
-(* 12. WHOLE RUNS, k-opt with k_max in {3,4}: PARTIAL -- BOUNDED in n (3 <= n <= 8 for k = 3, 3 <= n <= 7 for k = 4) by 8.,
-   unbounded in the number of steps and in D.  Steps [inl a] with a = the action the sequential builder forms from some
+(* 12. WHOLE RUNS, k-opt with k_max in {3,4}: BOUNDED in n (3 <= n <= 8 for k = 3, 3 <= n <= 7 for k = 4) by 8.,
+   unbounded in the number of steps and in D; SUPERSEDED by 18.  Steps [inl a] with a = the action the sequential builder forms from some
    k draws, or [inr target] with a tour of the same size *)
 Theorem C09_kopt_run_valid_partial :
   forall (D : nat -> nat -> Z) (k : nat) (t0 : list nat) (acts : list (list nat + list nat)),
@@ -181,6 +181,65 @@ Theorem C09_pdp_step_shift_ok_all_batch_sizes :
 Proof. exact shift_ok_all. Qed.
 Print Assumptions C09_pdp_step_shift_ok_all_batch_sizes.
 
+(* 15. k-opt (TSPkoptEnv, k_max > 2): UNBOUNDED -- every k_max >= 1, every n >= 3, every tour, every sequence [cs] of
+   k_max draws the sequential sampler (_random_action / NeuOptPolicy.forward; its masks do not depend on the network)
+   can make: the action [a] it forms is mapped by _local_operator to a tour, and the scatter of (left, right) has no
+   conflicting duplicate index (so torch's unspecified winner among duplicates does not matter).  n >= 3 is necessary (9.). *)
+Theorem C09_k_opt_valid :
+  forall (k : nat) (rec cs a : list nat),
+    1 <= k -> 3 <= length rec -> is_tour rec -> length cs = k -> kopt_builder k rec cs = Some a ->
+    is_tour (k_opt k rec a) /\
+    scatter_consistent (firstn k (skipn k a)) (skipn (2 * k) a) = true.
+Proof. exact k_opt_valid. Qed.
+Print Assumptions C09_k_opt_valid.
+
+(* 15b. the statement left open by the bounded version (ImproveKopt.k_opt_valid_statement) *)
+Theorem C09_k_opt_valid_statement :
+  forall (k : nat) (rec cs a : list nat), 3 <= k -> 3 <= length rec -> is_tour rec -> length cs = k ->
+    kopt_builder k rec cs = Some a -> is_tour (k_opt k rec a).
+Proof. exact k_opt_valid_statement_holds. Qed.
+Print Assumptions C09_k_opt_valid_statement.
+
+(* 16. the operator alone (UNBOUNDED: every k, every n >= 3, any number m and sizes of segments).  [smove_of k sol action a0 Ss R]:
+   seen from a0 the tour is a0 :: S1 ++ ... ++ Sm ++ R with non-empty segments Ss = [S1; ...; Sm]; the (left, right) pairs of
+   the action are, as a set, a0 -> last S1, hd S1 -> last S2, ..., hd Sm -> first node after Sm ([pairs]); left[0] = a0; the
+   successors of the selected nodes contain every segment head and the node after Sm and no other segment node ([RV]).
+   Then the relinking loop returns exactly the cycle in which every segment is reversed in place. *)
+Theorem C09_k_opt_reverses_the_segments :
+  forall (k : nat) (sol action : list nat) (a0 : nat) (Ss : list (list nat)) (R : list nat),
+    3 <= length sol -> smove_of k sol action a0 Ss R ->
+    length (k_opt k sol action) = length sol /\
+    cyc (k_opt k sol action) (a0 :: concat (map (@rev nat) Ss) ++ R) /\
+    scatter_consistent (firstn k (skipn k action)) (skipn (2 * k) action) = true.
+Proof. exact k_opt_smove_order. Qed.
+Print Assumptions C09_k_opt_reverses_the_segments.
+
+(* 17. the builder only forms such moves (UNBOUNDED, loop invariant over its k_max steps incl. the early-stop rows): hence
+   the new tour is the old one with the segments between consecutive selected nodes reversed in place *)
+Theorem C09_k_opt_builder_forms_S_moves :
+  forall (k : nat) (rec cs a : list nat),
+    1 <= k -> 3 <= length rec -> is_tour rec -> length cs = k -> kopt_builder k rec cs = Some a ->
+    exists (a0 : nat) (Ss : list (list nat)) (R : list nat),
+      cyc rec (a0 :: concat Ss ++ R) /\ full (length rec) (a0 :: concat Ss ++ R) /\
+      cyc (k_opt k rec a) (a0 :: concat (map (@rev nat) Ss) ++ R).
+Proof. exact k_opt_builder_order. Qed.
+Print Assumptions C09_k_opt_builder_forms_S_moves.
+
+(* 18. WHOLE RUNS, k-opt: UNBOUNDED in k_max >= 1, n >= 3, the distance data D and the number of steps.  Steps [inl a] with
+   a = the action the sequential builder forms from some k draws in the current state, or [inr target] (step_to_solution)
+   with a tour of the same size *)
+Theorem C09_kopt_run_valid :
+  forall (D : nat -> nat -> Z) (k : nat) (t0 : list nat) (acts : list (list nat + list nat)),
+    1 <= k -> 3 <= length t0 -> is_tour t0 ->
+    admitted_seq (list nat) (list nat + list nat) (step_op (k_opt k)) (adm_kopt k (length t0)) t0 acts ->
+    let s := fst (bsf_run (list nat) (list nat + list nat) (step_op (k_opt k)) (get_costs D)
+                          (bsf_reset (list nat) (get_costs D) t0) acts) in
+    is_tour (rec_current s) /\ is_tour (rec_best s) /\
+    cost_current s = tour_length D (walk (rec_current s) 0 (length (rec_current s))) /\
+    cost_bsf s = tour_length D (walk (rec_best s) 0 (length (rec_best s))).
+Proof. exact kopt_run_valid. Qed.
+Print Assumptions C09_kopt_run_valid.
+
 (* the boolean predicates used by the harness and in 8./9. are the specifications *)
 Theorem C09_is_tourb_spec : forall rec, is_tourb rec = true <-> is_tour rec.
 Proof. exact is_tourb_spec. Qed.
@@ -208,6 +267,20 @@ Example C09_ex_k_opt :
   k_opt 3 [3; 5; 4; 1; 0; 2] [0; 1; 2; 0; 3; 5; 1; 2; 4] = [1; 3; 5; 2; 0; 4] /\
   kopt_builder 3 [3; 5; 4; 1; 0; 2] [2; 5; 1] = None.
 Proof. exact k_opt_ex. Qed.
+(* beyond the former bound: n = 9, a genuine 5-exchange (k_max = 5) and its S-move order *)
+Example C09_ex_k_opt_unbounded :
+  let rec := [3; 5; 4; 1; 6; 2; 8; 0; 7] in
+  is_tourb rec = true /\
+  walk rec 0 9 = [0; 3; 1; 5; 2; 4; 6; 8; 7] /\
+  kopt_builder 5 rec [3; 5; 4; 8; 0] = Some [3; 5; 4; 8; 0; 3; 1; 2; 6; 7; 5; 4; 8; 0; 3] /\
+  walk (k_opt 5 rec [3; 5; 4; 8; 0; 3; 1; 2; 6; 7; 5; 4; 8; 0; 3]) 3 9 = [3; 5; 1; 4; 2; 8; 6; 0; 7] /\
+  is_tourb (k_opt 5 rec [3; 5; 4; 8; 0; 3; 1; 2; 6; 7; 5; 4; 8; 0; 3]) = true.
+Proof. exact k_opt_unbounded_ex. Qed.
+Example C09_ex_k_opt_smove :
+  k_opt 3 [3; 5; 4; 1; 0; 2] [0; 1; 2; 0; 3; 5; 1; 2; 4] = [1; 3; 5; 2; 0; 4] /\
+  walk [1; 3; 5; 2; 0; 4] 0 6 = 0 :: concat (map (@rev nat) [[3; 1]; [5; 2]]) ++ [4] /\
+  pairs 0 [[3; 1]; [5; 2]] 4 = combine [0; 3; 5] [1; 2; 4].
+Proof. exact k_opt_smove_ex. Qed.
 Example C09_ex_run :
   let D := fun i j : nat => Z.of_nat (if Nat.leb i j then j - i else i - j) in
   let opx := step_op (fun t m => two_opt t (nth 0 m 0) (nth 1 m 0)) in
